@@ -1,6 +1,8 @@
 import XzVerif.Proofs.Segment
 import XzVerif.Proofs.Tables
 import XzVerif.Proofs.Lzma1RoundTrip
+import XzVerif.Proofs.LazyDec
+import XzVerif.Proofs.Fuel
 /-
   C07 — Classic .lzma streams interoperate with the reference implementation both ways.
 
@@ -54,5 +56,61 @@ theorem C07_reader_reads_every_legal_stream (cfgCap : Nat) (hdr : Lzma1.Header) 
     (Lzma1.read cfgCap (Lzma1.encode hdr ops.toArray false)).consumed = (Lzma1.encode hdr ops.toArray false).size := by
   rw [Lzma1.read_encode_known cfgCap hdr ops hlc hlp hpb hdc hops hsize h63]
   exact ⟨rfl, rfl, rfl⟩
+
+/-! ### the reader as the code runs it (Model/LazyDec.lean: lazy, ring level), every legal stream, every read schedule -/
+
+open LazyDec in
+/-- helper: when the batch reader decodes `stream` cleanly to `content`, the lazy ring-level reader opens it and, under
+    every schedule of buffer lengths asking for more than the content, delivers exactly the content and ends with
+    `io.EOF` -/
+theorem lazy_of_batch (cfgCap : Nat) (stream content : ByteArray)
+    (hst : (Lzma1.read (effCap cfgCap) stream).status = .eof) (hout : (Lzma1.read (effCap cfgCap) stream).out = content)
+    (hopen : (Lzma1.read (effCap cfgCap) stream).openError = false) (lens : List Nat) (hsum : content.size < lens.sum) :
+    ∃ l, newReader cfgCap stream = .ok l ∧ lastStat (readSeq l lens) = .eof ∧ delivered (readSeq l lens) = content := by
+  have hiff := LazyDec.newReader_ok_iff cfgCap stream
+  rw [hopen] at hiff
+  cases hn : newReader cfgCap stream with
+  | error e => rw [hn] at hiff; simp [Except.toOption] at hiff
+  | ok l =>
+    have heof := LazyDec.reaches_eof cfgCap stream l hn lens hst (by rw [hout]; exact hsum)
+    have hf := Fuel.lzma1_read_fuel (effCap cfgCap) stream
+    exact ⟨l, rfl, heof, by rw [(LazyDec.eof_complete cfgCap stream l hn lens hf heof).2, hout]⟩
+
+open LazyDec in
+/-- explicit size, no end marker (includes the SDK's empty file) -/
+theorem C07_lazy_reader_reads_every_legal_stream_known (cfgCap : Nat) (hdr : Lzma1.Header) (ops : List RawOp)
+    (hlc : hdr.props.lc ≤ 8) (hlp : hdr.props.lp ≤ 4) (hpb : hdr.props.pb ≤ 4) (hdc : hdr.dictCap < 2 ^ 32)
+    (hops : OpsOk {} (Lzma1.encHist hdr) ops)
+    (hsize : hdr.size = some (finalH {} (Lzma1.encHist hdr) ops).out.size)
+    (h63 : (finalH {} (Lzma1.encHist hdr) ops).out.size < 2 ^ 63)
+    (lens : List Nat) (hsum : (finalH {} (Lzma1.encHist hdr) ops).out.size < lens.sum) :
+    ∃ l, newReader cfgCap (Lzma1.encode hdr ops.toArray false) = .ok l ∧ lastStat (readSeq l lens) = .eof ∧
+      delivered (readSeq l lens) = (finalH {} (Lzma1.encHist hdr) ops).out := by
+  have h := Lzma1.read_encode_known (effCap cfgCap) hdr ops hlc hlp hpb hdc hops hsize h63
+  exact lazy_of_batch cfgCap _ _ (by rw [h]) (by rw [h]) (by rw [h]) lens hsum
+
+open LazyDec in
+/-- explicit size with an end marker -/
+theorem C07_lazy_reader_reads_every_legal_stream_known_marker (cfgCap : Nat) (hdr : Lzma1.Header) (ops : List RawOp)
+    (hlc : hdr.props.lc ≤ 8) (hlp : hdr.props.lp ≤ 4) (hpb : hdr.props.pb ≤ 4) (hdc : hdr.dictCap < 2 ^ 32)
+    (hops : OpsOk {} (Lzma1.encHist hdr) ops)
+    (hsize : hdr.size = some (finalH {} (Lzma1.encHist hdr) ops).out.size)
+    (h63 : (finalH {} (Lzma1.encHist hdr) ops).out.size < 2 ^ 63)
+    (lens : List Nat) (hsum : (finalH {} (Lzma1.encHist hdr) ops).out.size < lens.sum) :
+    ∃ l, newReader cfgCap (Lzma1.encode hdr ops.toArray true) = .ok l ∧ lastStat (readSeq l lens) = .eof ∧
+      delivered (readSeq l lens) = (finalH {} (Lzma1.encHist hdr) ops).out := by
+  have h := Lzma1.read_encode_known_marker (effCap cfgCap) hdr ops hlc hlp hpb hdc hops hsize h63
+  exact lazy_of_batch cfgCap _ _ (by rw [h]) (by rw [h]) (by rw [h]) lens hsum
+
+open LazyDec in
+/-- unknown size, end marker -/
+theorem C07_lazy_reader_reads_every_legal_stream_unknown (cfgCap : Nat) (hdr : Lzma1.Header) (ops : List RawOp)
+    (hlc : hdr.props.lc ≤ 8) (hlp : hdr.props.lp ≤ 4) (hpb : hdr.props.pb ≤ 4) (hdc : hdr.dictCap < 2 ^ 32)
+    (hsize : hdr.size = none) (hops : OpsOk {} (Lzma1.encHist hdr) ops)
+    (lens : List Nat) (hsum : (finalH {} (Lzma1.encHist hdr) ops).out.size < lens.sum) :
+    ∃ l, newReader cfgCap (Lzma1.encode hdr ops.toArray true) = .ok l ∧ lastStat (readSeq l lens) = .eof ∧
+      delivered (readSeq l lens) = (finalH {} (Lzma1.encHist hdr) ops).out := by
+  have h := Lzma1.read_encode_unknown (effCap cfgCap) hdr ops hlc hlp hpb hdc hsize hops
+  exact lazy_of_batch cfgCap _ _ (by rw [h]) (by rw [h]) (by rw [h]) lens hsum
 
 end Props.C07
